@@ -46,7 +46,7 @@ def run(ctx):
     ctx.undecided = ("that substituted messages/commitments/identifiers are *rejected* (needs collision resistance "
                      "and the algebra); enumeration of concurrent sessions.  Binding coverage of the H1/H2 preimages "
                      "is decided by the dependence rules below.")
-    ctx.floor = 10
+    ctx.floor = 50
     P = ctx.prog
     f = ctx.anchor(CORE + "round2::sign")
     if f:
